@@ -117,6 +117,10 @@ def shape(c, depth=0):
         return {"Struct": [[getattr(sc, "name", None), shape(sc, depth + 1)] for sc in c.subcons]}
     if isinstance(c, core.FormatField):
         return FMT_KIND.get(c.fmtstr, c.fmtstr)
+    if isinstance(c, core.BytesInteger):
+        return f"{'i' if c.signed else 'u'}{8 * c.length}{'le' if c.swapped else 'be'}" if isinstance(c.length, int) else {"BytesInteger": expr_tree(c.length)}
+    if isinstance(c, core.Bytes):
+        return {"Bytes": c.length if isinstance(c.length, int) else expr_tree(c.length)}
     if isinstance(c, core.Const):
         v = c.value
         return {"Const": v.hex() if isinstance(v, (bytes, bytearray)) else v}
@@ -135,6 +139,15 @@ def shape(c, depth=0):
         return {"Lazy": shape(c.subcon, depth + 1)}
     if n == "Enum":
         return {"Enum": shape(c.subcon, depth + 1), "map": {str(k): int(v) for k, v in c.encmapping.items() if isinstance(k, str)}}
+    if isinstance(c, core.ExprValidator):
+        v = None
+        try:         # construct keeps the validator only in the closure of `_validate`
+            v = c._validate.__closure__[0].cell_contents
+        except Exception:
+            pass
+        return {"ExprValidator": {"sub": shape(c.subcon, depth + 1), "validator": expr_tree(v)}}
+    if isinstance(c, core.Padded):
+        return {"Padded": {"length": c.length if isinstance(c.length, int) else expr_tree(c.length), "sub": shape(c.subcon, depth + 1)}}
     if isinstance(c, core.ExprAdapter):
         return {"ExprAdapter": shape(c.subcon, depth + 1)}
     if n == "GreedyBytes" or c is core.GreedyBytes:
@@ -146,6 +159,8 @@ def shape(c, depth=0):
 
 SHAPES = {
     "formats.wav:RiffStruct": ("smpl_extract.formats.wav", "RiffStruct"),
+    "alcohol.mdf:MdfSectorHeaderConstruct": ("smpl_extract.alcohol.mdf", "MdfSectorHeaderConstruct"),
+    "alcohol.mdx:MdxHeaderConstruct": ("smpl_extract.alcohol.mdx", "MdxHeaderConstruct"),
 }
 
 
